@@ -55,6 +55,9 @@ type convOutcome struct {
 	// state after each command prefix, for C10: device file text and model.
 	Prefixes     []string
 	PrefixModels []any
+	Final        any // model after the whole script (Cisco)
+	// live runs: what the simulator observed
+	LiveCommands, LiveJoined, LiveNotices, LiveCompares int
 }
 
 // genPair dispatches to the generator of a device type.
